@@ -38,9 +38,19 @@ def main(prop, tier, only=None, caps=None):
     run_units(prop, tier, units, rule, assumptions, rep=rep, finish=False)
     # std::string overloads, at(), str(), substr(), operator<< : E2 with the real std::string as oracle
     from e2 import E2Unit, run_e2
-    e2caps = [3, 255, 256] if tier == 'quick' else [1, 3, 4, 254, 255, 256, 257]
+    # 255/256: switch of the internal length type from 8 to 16 bits; 32767/32768: sign bit of a 16-bit length; 65535/65536: 16 -> 32 bits
+    e2caps = [3, 255, 256, 40000] if tier == 'quick' else [1, 3, 4, 254, 255, 256, 257, 32767, 32768, 40000, 65535, 65536]
     e2units = []
     for L in e2caps:
+        if L >= 1000:
+            # very large capacities: the core operations only (lengths L-3..L, positions and counts around the ends)
+            big_ops = (0, 1, 2, 3, 4, 5, 7, 12, 13, 14, 18, 19) if tier == 'quick' else (0, 1, 2, 3, 4, 5, 7, 8, 9, 12, 13, 14, 15, 18, 19)
+            shapes = [('hx_fs_core', [op, 0 if prop == 'C10' else 1], 'L%d/coreop%d' % (L, op)) for op in big_ops if not (prop == 'C10' and op in (0, 2, 4, 5, 12, 13, 14, 19, 20))]
+            if only:
+                shapes = [x for x in shapes if re.search(only, x[2])]
+            e2units.append(E2Unit('fixed_string_e2_%s_L%d' % (prop, L), os.path.join(HERE, 'w_fs_e2.cpp'), defines=['CAP=%d' % L], shapes=shapes, timeout=900, max_steps=30000000, conc_cap=300, validate_vectors=2,
+                                  bounds=dict(capacity=L, state='length L-3..L symbolic, concrete filler content', positions='near both ends or huge', counts='0..3, L-1..L+2 or huge')))
+            continue
         shapes = [('hx_fs_str', [op, 0 if prop == 'C10' else 1], 'L%d/strop%d' % (L, op)) for op in range(26) if not (prop == 'C10' and op in (22, 25)) and not (L > 16 and op >= 10 and op not in (22, 23, 24))]
         if tier == 'quick' and L > 16:
             shapes = [x for x in shapes if x[1][0] != 9]          # replace(pos,count,str,pos2,count2) at the large capacities: thorough tier (7 min per capacity)
